@@ -408,10 +408,64 @@ pub fn escaped_path(p: &Path) -> String {
     }
 }
 
+/// Creates `rel` (a file with `content`, or a directory when `content` is `None`) below `base`
+/// one component at a time with `mkdirat`/`openat`, so that the full path may be longer than
+/// PATH_MAX — which is how a directory comes to exist that `canonicalize`/`read_dir` by path
+/// cannot reach.
+fn create_deep(base: &Path, rel: &Path, content: Option<&[u8]>) {
+    use std::os::unix::ffi::OsStrExt;
+    let c = |b: &[u8]| std::ffi::CString::new(b.to_vec()).ok();
+    let Some(base_c) = c(base.as_os_str().as_bytes()) else { return };
+    unsafe {
+        let mut fd = libc::open(base_c.as_ptr(), libc::O_RDONLY | libc::O_DIRECTORY);
+        if fd < 0 {
+            return;
+        }
+        let comps: Vec<&std::ffi::OsStr> = rel.iter().collect();
+        for (k, comp) in comps.iter().enumerate() {
+            let Some(name) = c(comp.as_bytes()) else { break };
+            let last = k + 1 == comps.len();
+            if last && content.is_some() {
+                let f = libc::openat(fd, name.as_ptr(), libc::O_WRONLY | libc::O_CREAT | libc::O_TRUNC, 0o644);
+                if f >= 0 {
+                    let data = content.unwrap();
+                    let mut off = 0;
+                    while off < data.len() {
+                        let n = libc::write(f, data[off..].as_ptr() as *const libc::c_void, data.len() - off);
+                        if n <= 0 {
+                            break;
+                        }
+                        off += n as usize;
+                    }
+                    libc::close(f);
+                }
+                break;
+            }
+            libc::mkdirat(fd, name.as_ptr(), 0o755);
+            let next = libc::openat(fd, name.as_ptr(), libc::O_RDONLY | libc::O_DIRECTORY);
+            libc::close(fd);
+            fd = next;
+            if fd < 0 {
+                return;
+            }
+        }
+        libc::close(fd);
+    }
+}
+
 fn materialise(base: &Path, nodes: &[Node]) {
     // Directories and files first, symlinks last; parents are created on demand.
     for node in nodes {
-        let p = base.join(real_path(node.path()));
+        let rel = real_path(node.path());
+        if base.as_os_str().len() + rel.as_os_str().len() > 3500 {
+            match node {
+                Node::File { content, .. } => create_deep(base, &rel, Some(&content.0)),
+                Node::Dir { .. } => create_deep(base, &rel, None),
+                Node::Symlink { .. } => {}
+            }
+            continue;
+        }
+        let p = base.join(rel);
         if let Some(parent) = p.parent() {
             let _ = std::fs::create_dir_all(parent);
         }
